@@ -160,6 +160,9 @@ impl Prop for C10 {
     fn id(&self) -> &'static str {
         "C10"
     }
+    fn isolate(&self) -> bool {
+        true
+    }
     fn level(&self) -> &'static str {
         "fault_enumeration"
     }
